@@ -1,7 +1,7 @@
 (* C08 - eIds follow the naming convention and are stable under unrelated edits.
    Statements only; proofs in Proofs/EidConvention.v. *)
 Require Import BB.Base.Str BB.Base.Xml BB.Gen.TablesXml BB.Model.Eid BB.Model.EidSpec.
-Require Import BB.Proofs.EidConvention BB.Proofs.EidTop BB.Proofs.EidLocal BB.Proofs.EidNest BB.Proofs.EidFirst.
+Require Import BB.Proofs.EidConvention BB.Proofs.EidTop BB.Proofs.EidLocal BB.Proofs.EidNest BB.Proofs.EidFirst BB.Proofs.EidDecompose.
 
 (* For every tree, prefix and generator state: every identified element's id is
    <prefix handed down>__<abbreviation>_<number part>, possibly followed by _k suffixes, where the
@@ -100,3 +100,54 @@ Proof.
   split; [vm_compute; reflexivity|]. split; [apply path_firstb_sound; vm_compute; reflexivity|].
   split; vm_compute; reflexivity.
 Qed.
+
+(* ids decompose uniquely at underscores: an id is built on one candidate only, and a candidate determines the prefix handed down,
+   the abbreviation and the number part ([wfc]: <prefix__><alias>_<number part>, alias and number part without underscore - true of
+   every candidate of an element whose name holds no underscore, Proofs/EidDecompose.v) *)
+Theorem C08_id_has_one_base : forall c1 c2 y, wfc c1 -> wfc c2 -> suffixed c1 y -> suffixed c2 y -> c1 = c2.
+Proof. exact base_unique. Qed.
+Print Assumptions C08_id_has_one_base.
+
+Theorem C08_candidate_determines_its_parts : forall q1 t1 n1 q2 t2 n2 num1 num2,
+  plain t1 -> plain t2 -> num_part t1 num1 n1 -> num_part t2 num2 n2 ->
+  candidate q1 t1 n1 = candidate q2 t2 n2 -> n1 = n2 /\ alias_of t1 = alias_of t2 /\ q1 = q2.
+Proof. exact candidate_inj. Qed.
+Print Assumptions C08_candidate_determines_its_parts.
+
+(* The second sentence with "uniquely numbered" spelled in names and numbers only ([path_unique]): every identified element from the
+   root down to the provision has a num, and no earlier identified element of the document was handed the same prefix, has the same
+   abbreviation and the same number part.  Then the provision's id is path_eid of the labels along its path, and any two documents
+   agree on it.  (Element names without underscore: all of Akoma Ntoso's.) *)
+Theorem C08_unique_numbering_determines_id : forall e q e' m pi labels tag a ks,
+  rewrite_all_eids e q = Some (e', m) -> Forall plain (tags_of e') ->
+  path_labels e' pi = Some (labels, El tag a ks) -> path_unique q [] e' pi ->
+  identifiable tag = true -> old_id a = path_eid q labels.
+Proof. exact unique_numbering_determines_id. Qed.
+Print Assumptions C08_unique_numbering_determines_id.
+
+Theorem C08_unique_numbering_stable : forall e1 e2 q e1' m1 e2' m2 pi1 pi2 labels tag1 a1 k1 tag2 a2 k2,
+  rewrite_all_eids e1 q = Some (e1', m1) -> rewrite_all_eids e2 q = Some (e2', m2) ->
+  Forall plain (tags_of e1') -> Forall plain (tags_of e2') ->
+  path_labels e1' pi1 = Some (labels, El tag1 a1 k1) -> path_unique q [] e1' pi1 ->
+  path_labels e2' pi2 = Some (labels, El tag2 a2 k2) -> path_unique q [] e2' pi2 ->
+  identifiable tag1 = true -> identifiable tag2 = true -> old_id a1 = old_id a2.
+Proof. exact unique_numbering_stable. Qed.
+Print Assumptions C08_unique_numbering_stable.
+
+(* the premises are met by the two documents above, and by every element name the generator's tables mention *)
+Example C08_unique_numbering_example :
+  exists e1' m1 e2' m2,
+    rewrite_all_eids c08_doc1 [] = Some (e1', m1) /\ rewrite_all_eids c08_doc2 [] = Some (e2', m2)
+    /\ Forall plain (tags_of e1') /\ Forall plain (tags_of e2')
+    /\ path_unique [] [] e1' [1; 1]%nat /\ path_unique [] [] e2' [3; 1]%nat.
+Proof.
+  destruct (rewrite_all_eids c08_doc1 []) as [[e1' m1]|] eqn:E1; [|vm_compute in E1; discriminate].
+  destruct (rewrite_all_eids c08_doc2 []) as [[e2' m2]|] eqn:E2; [|vm_compute in E2; discriminate].
+  vm_compute in E1, E2. inversion E1; subst e1' m1. inversion E2; subst e2' m2. clear E1 E2.
+  do 4 eexists. split; [reflexivity|]. split; [reflexivity|].
+  split; [apply plainb_sound; vm_compute; reflexivity|]. split; [apply plainb_sound; vm_compute; reflexivity|].
+  split; apply path_uniqueb_sound; vm_compute; reflexivity.
+Qed.
+Example C08_akn_names_are_plain :
+  Forall plain (id_exempt ++ id_exempt_but_pass_to_children ++ num_expected ++ map fst aliases).
+Proof. apply plainb_sound. exact tables_plain. Qed.
